@@ -97,6 +97,16 @@ pub fn admissions_take() -> Vec<(u64, u64)> {
 }
 
 #[derive(Debug)]
+struct ThrottleAllFilter;
+
+impl foyer::StorageFilterCondition for ThrottleAllFilter {
+    fn filter(&self, _: &Arc<foyer::Statistics>, _: u64, _: usize) -> foyer::StorageFilterResult {
+        lock_probe("AdmissionFilter");
+        foyer::StorageFilterResult::Throttled(std::time::Duration::from_millis(1))
+    }
+}
+
+#[derive(Debug)]
 struct UpToFilter(usize);
 
 impl foyer::StorageFilterCondition for UpToFilter {
@@ -185,6 +195,9 @@ pub fn decode_val(v: &[u8]) -> Decoded {
 pub enum Admission {
     Admit,
     Reject,
+    /// The admission filter answers `Throttled` for every entry (what the built-in IO throttle does while the
+    /// device write budget is exceeded): like a rejection, nothing may be written.
+    ThrottleAll,
     /// Admits entries whose estimated size is at most this many bytes, rejects larger ones (a newer, larger
     /// version of a key is then refused by the disk tier while the older, smaller one may still be queued).
     UpTo(usize),
@@ -260,6 +273,11 @@ impl HybCfg {
         }
     }
 
+    /// The admission filter lets nothing through (rejects or throttles everything).
+    pub fn admits_nothing(&self) -> bool {
+        matches!(self.admission, Admission::Reject | Admission::ThrottleAll)
+    }
+
     pub fn max_entry_size(&self) -> usize {
         self.block_size - self.blob_index_size
     }
@@ -281,6 +299,7 @@ impl HybCfg {
             if self.flush_on_close { "" } else { "-nofoc" },
             match self.admission {
                 Admission::Reject => "+reject".to_string(),
+                Admission::ThrottleAll => "+throttle".to_string(),
                 Admission::UpTo(n) => format!("+upto{n}"),
                 Admission::Admit => String::new(),
             },
@@ -734,6 +753,8 @@ impl World {
             }
             if cfg.admission == Admission::Reject {
                 engine = engine.with_admission_filter(StorageFilter::new().with_condition(RejectAll));
+            } else if cfg.admission == Admission::ThrottleAll {
+                engine = engine.with_admission_filter(StorageFilter::new().with_condition(ThrottleAllFilter));
             } else if let Admission::UpTo(max) = cfg.admission {
                 engine = engine.with_admission_filter(StorageFilter::new().with_condition(UpToFilter(max)));
             } else {
